@@ -355,10 +355,11 @@ Lemma fcol_spec c prevF B s mu lam :
      = lam * bwdx (drop c.+1 ccs) (mask (cc_fmask (cc_ c)) x) i) ->
   let r := fcolK (cc_ c) (c == 0%N) (c.+1 == n) prevF B s in
   r.2 = false ->
-  (forall sigma i, size sigma = cc_fw (cc_ c) -> (i < tn)%N ->
-     r.1.1 sigma i = (mu / s) * fwdx (rev (take c.+1 ccs)) sigma i) /\
-  (forall ind g, (ind < p_nind P)%N -> (g < 3)%N ->
-     nth 0 (nth [::] r.1.2 ind) g = post c ind g).
+  [/\ forall sigma i, size sigma = cc_fw (cc_ c) -> (i < tn)%N ->
+        r.1.1 sigma i = (mu / s) * fwdx (rev (take c.+1 ccs)) sigma i,
+      Nm c (fun _ _ => true) != 0
+    & forall ind g, (ind < p_nind P)%N -> (g < 3)%N ->
+        nth 0 (nth [::] r.1.2 ind) g = post c ind g].
 Proof.
 move=> hc hs hmu hlam hF hB.
 rewrite /fcol /= -/tn -/na -/ts.
@@ -387,15 +388,16 @@ have hsum : forall phi : nat -> nat -> bool,
   rewrite fsum_mapf big_distrr /=.
   apply: eq_sum_seq_cond => a; rewrite mem_iota add0n => /andP[_ ha] _.
   by rewrite hM.
+have hden : fsum 0 +%R [seq fsum 0 +%R [seq M i a | a <- iota 0 na] | i <- ts]
+        = (mu / s * lam) * Nm c (fun _ _ => true).
+  by rewrite -hsum; congr fsum; apply: eq_map => i; rewrite filter_predT.
 move=> hnorm; split.
 - move=> sigma i hsg hi; rewrite memoE // fsum_mapf bitvecsE.
   rewrite (take_nth dccK hc) rev_rcons /= big_distrr /=.
   apply: eq_sum_seq_cond => x; rewrite mem_bitsE => /eqP hx _.
   by rewrite hsp // mulrA.
+- by move: hnorm; rewrite hden mulf_eq0 (negbTE hkap) /= => ->.
 - move=> ind g hind hg.
-  have hden : fsum 0 +%R [seq fsum 0 +%R [seq M i a | a <- iota 0 na] | i <- ts]
-          = (mu / s * lam) * Nm c (fun _ _ => true).
-    by rewrite -hsum; congr fsum; apply: eq_map => i; rewrite filter_predT.
   rewrite (nth_map 0%N) ?size_iota // nth_iota // add0n.
   by case: g hg => [|[|[|g]]] //= _;
      rewrite hden (hsum (phi_g ind _)) /post -mulf_div divff // mul1r.
@@ -414,8 +416,8 @@ Definition Inv_f (k c : nat) (fs : fstateK) : Prop :=
            f_prev fs sigma j = mu * fwdx (rev (take c ccs)) sigma j,
       avail k c (f_b fs),
       size (f_out fs) = c
-    & forall c' ind g, (c' < c)%N -> (ind < p_nind P)%N -> (g < 3)%N ->
-        out_at (f_out fs) c' ind g = post c' ind g].
+    & forall c', (c' < c)%N -> Nm c' (fun _ _ => true) != 0 /\
+        forall ind g, (ind < p_nind P)%N -> (g < 3)%N -> out_at (f_out fs) c' ind g = post c' ind g].
 
 Lemma fstep_err k fs c : err (f_b (fstepK k fs c)) = false -> err (f_b fs) = false.
 Proof.
@@ -474,7 +476,7 @@ have [mu hmu hF] : exists2 mu : K, mu != 0 &
 move: herr; rewrite /fstep -/st hselB /=.
 set s := nth 0 (sc st) c.
 move/negbT; rewrite !negb_or => /andP[/andP[_ hs] hr]; move/negbTE: hr => hr.
-case: (fcol_spec hc hs hmu hlam hF hB hr) => hnewF hlik.
+case: (fcol_spec hc hs hmu hlam hF hB hr) => hnewF hnz hlik.
 split=> /=.
 - case: hok1 => hg hss; split=> //=; exact: bt_good_setN.
 - move=> _; exists (mu / s); first by rewrite mulf_neq0 ?invr_eq0.
@@ -483,28 +485,27 @@ split=> /=.
     by move: hce; rewrite ee ltnn.
   by apply: hmono1; apply: hav => //; apply: ltnW.
 - by rewrite size_rcons hsz.
-- move=> c' ind g; rewrite ltnS leq_eqVlt => /orP[/eqP->|hlt] hind hg.
-    by rewrite /out_at nth_rcons hsz ltnn eqxx; apply: hlik.
-  by rewrite /out_at nth_rcons hsz hlt; apply: hout.
+- move=> c'; rewrite ltnS leq_eqVlt => /orP[/eqP->|hlt].
+    by split=> // ind g hind hg; rewrite /out_at nth_rcons hsz ltnn eqxx; apply: hlik.
+  case: (hout c' hlt) => hnz' ho; split=> // ind g hind hg.
+  by rewrite /out_at nth_rcons hsz hlt; apply: ho.
 Qed.
 
 Lemma isqrt_gt0 m : (0 < m)%N -> (0 < isqrt m)%N.
 Proof. by case: m. Qed.
 
-Local Notation runK := (@fb_run_state K 0 1 +%R subK *%R divK eq0K P genof ccs).
+Local Notation runK := (@fb_run_state_k K 0 1 +%R subK *%R divK eq0K P genof ccs).
 
-Theorem run_ok :
-  err (f_b runK) = false ->
-  size (f_out runK) = n /\
-  forall c ind g, (c < n)%N -> (ind < p_nind P)%N -> (g < 3)%N ->
-    out_at (f_out runK) c ind g = post c ind g.
+Theorem run_k_ok k :
+  (0 < k)%N ->
+  err (f_b (runK k)) = false ->
+  size (f_out (runK k)) = n /\
+  forall c, (c < n)%N -> Nm c (fun _ _ => true) != 0 /\
+    forall ind g, (ind < p_nind P)%N -> (g < 3)%N -> out_at (f_out (runK k)) c ind g = post c ind g.
 Proof.
-rewrite /fb_run_state -/n.
-set k := isqrt n; set st0 := BState _ _ _; set fs0 := FState _ _ _.
+move=> hk; rewrite /fb_run_state_k -/n.
+set st0 := BState _ _ _; set fs0 := FState _ _ _.
 move=> herr.
-case: (posnP n) => [n0|npos].
-  by move: herr; rewrite n0 /=; split=> // c ind g.
-have hk : (0 < k)%N by apply: isqrt_gt0.
 have herr0 : err (bpassK k st0) = false by move/fsteps_err: herr.
 have hinv0 : Inv_f k 0 fs0.
   by case: (bpass_ok herr0) => hok hav; split.
@@ -515,7 +516,19 @@ have hall : forall c, (c <= n)%N -> Inv_f k c (foldl (fstepK k) fs0 (iota 0 c)).
     by move: herr; rewrite e foldl_cat => /fsteps_err.
   move: herrc; rewrite -addn1 iotaD foldl_cat /= add0n => herrc.
   by rewrite addn1; apply: fstep_ok => //; apply: IH; apply: ltnW.
-case: (hall n (leqnn n)) => _ _ _ hsz hout; split=> //.
+by case: (hall n (leqnn n)) => _ _ _ hsz hout; split.
+Qed.
+
+Theorem run_ok :
+  err (f_b (@fb_run_state K 0 1 +%R subK *%R divK eq0K P genof ccs)) = false ->
+  size (f_out (@fb_run_state K 0 1 +%R subK *%R divK eq0K P genof ccs)) = n /\
+  forall c, (c < n)%N -> Nm c (fun _ _ => true) != 0 /\
+    forall ind g, (ind < p_nind P)%N -> (g < 3)%N ->
+      out_at (f_out (@fb_run_state K 0 1 +%R subK *%R divK eq0K P genof ccs)) c ind g = post c ind g.
+Proof.
+rewrite /fb_run_state -/n.
+case: (posnP n) => [n0|npos]; last by apply: run_k_ok; apply: isqrt_gt0.
+by rewrite /fb_run_state_k -/n n0 /=; split.
 Qed.
 
 End Run.
